@@ -57,7 +57,7 @@ def generate(rng, tier, idx):
         # a class merge: groups stay impure / a relabelling: groups pure although "wrong"
         perm = rng.permutation(K)
         preds = [int(perm[l]) for l in labels]
-    return {"kind": "labels", "labels": labels, "preds": preds, "as_array": bool(rng.random() < 0.5)}
+    return {"kind": "labels", "labels": labels, "preds": preds, "as_array": bool(rng.random() < 0.5), "dtype": str(rng.choice(["int64", "int32", "int16"]))}
 
 
 def check(case):
@@ -97,8 +97,11 @@ def check(case):
     N, K = len(labels), max(labels) + 1
     if sorted(set(labels)) != list(range(K)) or len(preds) != N or not all(0 <= p < K for p in preds):
         return res.reject("outside-domain")
-    L = np.array(labels, dtype=int) if case["as_array"] else list(labels)
-    P = np.array(preds, dtype=int) if case["as_array"] else list(preds)
+    dt = case.get("dtype", "int64")
+    L = np.array(labels, dtype=dt) if case["as_array"] else list(labels)
+    P = np.array(preds, dtype=dt) if case["as_array"] else list(preds)
+    L0 = np.array(L, copy=True) if case["as_array"] else list(L)
+    P0 = np.array(P, copy=True) if case["as_array"] else list(P)
     cnt = [labels.count(c) for c in range(K)]
     FP = [sum(1 for l, p in zip(labels, preds) if p == c and l != c) for c in range(K)]
     FN = [sum(1 for l, p in zip(labels, preds) if l == c and p != c) for c in range(K)]
@@ -172,6 +175,10 @@ def check(case):
         res.see("purity_one_with_errors")
     if not abs(pu - float(refp)) <= 1e-12 or not (0 < pu <= 1 + 1e-12) or (pure != (pu == 1.0)):
         res.violate("purity", "C20/purity", f"purity={pu!r}, definition {float(refp)!r}, every group pure={pure}")
+        return res
+    # the measures are pure: the caller's label vectors are unchanged
+    if list(map(int, L)) != list(map(int, L0)) or list(map(int, P)) != list(map(int, P0)):
+        res.violate("purity-of-measures", "C20/caller-vectors-modified", "a measure modified the caller's label / prediction vector")
         return res
     res.nontrivial = K >= 3 and n_err >= 1 and len(set(cnt)) > 1
     res.cell("K" + str(K), "arr" if case["as_array"] else "list", "ok" if all_ok else ("allwrong" if n_err == N else "mixed"))
